@@ -21,6 +21,7 @@ CONSTANTS
   MaxDisc,        \* number of disconnect() calls
   MaxSubs,        \* number of subscribe() calls
   Timeouts,       \* BOOLEAN: connect timeouts may fire
+  Sequential,     \* BOOLEAN: a new dial starts only when nothing is in flight (C10's premise)
   Limits,         \* Limits[n]: max_concurrent_connections or NoLimit
   Affs            \* Affs[n][p]: affinity n has configured for p ("None" if unknown)
 
@@ -36,6 +37,14 @@ mvars == <<att, done, replies, subs, nDisc>>
 (* values for the function-valued constants, selected in the .cfg files *)
 NoLimits == [n \in Nodes |-> NoLimit]
 NoAffs == [n \in Nodes |-> [p \in Nodes |-> "None"]]
+(* C10: node 1 limits itself to one connection, allows 2 explicitly, knows nothing of 3; *)
+(* node 2 refuses node 3; node 3 has no limit                                            *)
+C10Limits == [n \in Nodes |-> IF n = 1 THEN 1 ELSE NoLimit]
+C10Affs == [n \in Nodes |-> [p \in Nodes |->
+              CASE n = 1 /\ p = 2 -> "Allowed"
+                [] n = 2 /\ p = 3 -> "Never"
+                [] n = 3 /\ p = 1 -> "High"
+                [] OTHER -> "None"]]
 AllPairs == {pr \in Nodes \X Nodes : pr[1] # pr[2]}
 allvars == <<vars, mvars>>
 
@@ -60,9 +69,17 @@ OtherOf(n, k) == IF att[k].d = n THEN att[k].l ELSE att[k].d
 Push(n, r) == done' = [done EXCEPT ![n] = Append(@, r)]
 
 (* dial_peer_task starts; TLS succeeds on the dialer (honest identities)   *)
+Final(k) == att[k].ds \in {"done", "failed"} /\ att[k].ls \in {"done", "failed"}
+Settled ==
+  /\ \A k \in DOMAIN att : Final(k)
+  /\ \A n \in Nodes : done[n] = <<>>
+  /\ \A n \in Nodes : \A k \in handlers[n] :
+        k \notin closedL[n] /\ k \notin closedL[IF att[k].d = n THEN att[k].l ELSE att[k].d]
+
 Dial(d, l) ==
   /\ Len(att) < MaxAtt
-  /\ att' = Append(att, [d |-> d, l |-> l, ds |-> "tls", ls |-> "none"])
+  /\ Sequential => Settled
+  /\ att' = Append(att, [d |-> d, l |-> l, ds |-> "tls", ls |-> "none", cnt |-> -1, v |-> "none"])
   /\ UNCHANGED <<vars, done, replies, subs, nDisc>>
 
 (* handle_incoming_task: TLS finished on the listener (the dialer finished  *)
@@ -76,13 +93,15 @@ ListenerTls(k) ==
 Admit(k) ==
   /\ att[k].ls = "tls"
   /\ Admitted(att[k].l, att[k].d)
-  /\ att' = [att EXCEPT ![k].ls = "ackSent"]
+  /\ att' = [att EXCEPT ![k].ls = "ackSent", ![k].v = "admit",
+                       ![k].cnt = Cardinality(DOMAIN active[att[k].l])]
   /\ UNCHANGED <<vars, done, replies, subs, nDisc>>
 
 Reject(k) ==
   /\ att[k].ls = "tls"
   /\ ~Admitted(att[k].l, att[k].d)
-  /\ att' = [att EXCEPT ![k].ls = "failed"]
+  /\ att' = [att EXCEPT ![k].ls = "failed", ![k].v = "reject",
+                       ![k].cnt = Cardinality(DOMAIN active[att[k].l])]
   /\ closedL' = [closedL EXCEPT ![att[k].l] = @ \cup {k}]      \* connection dropped
   /\ Push(att[k].l, [g |-> k, side |-> "in", ok |-> FALSE])
   /\ UNCHANGED <<active, evlog, handlers, dialVars, replies, subs, nDisc>>
@@ -201,6 +220,17 @@ ReturnedIsListed == \A r \in replies : r.ok => r.listed
 
 (* C03/C10: a dial only succeeds for a connection the listener admitted    *)
 DialerLearns == \A r \in replies : r.ok => att[r.g].ls \in {"ackSent", "done", "failed"}
+
+(* C10, stated over the history of admissions (v = verdict, cnt = connections  *)
+(* established at the listener when the arrival was judged)                    *)
+AdmissionTable ==
+  \A k \in DOMAIN att : att[k].v # "none" =>
+     LET l == att[k].l  a == Affs[l][att[k].d] IN
+     /\ a = "Never" => att[k].v = "reject"
+     /\ a \in {"High", "Allowed"} => att[k].v = "admit"
+     /\ a = "None" => (att[k].v = "admit") = (IF Limits[l] = NoLimit THEN TRUE ELSE att[k].cnt < Limits[l])
+(* a rejected dialer never sees its connect succeed *)
+RejectedDialerFails == \A r \in replies : r.ok => att[r.g].v = "admit"
 
 Quiescent == ~ ENABLED Next
 
